@@ -100,8 +100,23 @@ def check_compile_sequence(acc, items):
     history = []
     invalid_before_valid = False
     seen_invalid = False
+    from bardolph.vm.instruction import Instruction
+    kept = []       # (index, program object handed out, its listing then)
     for index, item in enumerate(items):
         got = compile_once(shared, item['text'])
+        for earlier, program, listing in kept:
+            if Instruction.do_listing(program) != listing:
+                acc.fail('compile-history:earlier-program-overwritten',
+                         'the program returned for text #{} changed when '
+                         'text #{} was compiled on the same Parser\n--- '
+                         'texts ---\n{}'.format(
+                             earlier, index, '\n=====\n'.join(
+                                 i['text'] for i in items[:index + 1])),
+                         {'kind': 'compile', 'items': items[:index + 1]})
+                kept = []
+                break
+        if got[0] == 'ok':
+            kept.append((index, shared.get_program(), got[2]))
         want = compile_once(Parser(), item['text'])
         history.append(item['how'] + ':' + got[0])
         if got[0] != 'ok':
@@ -220,6 +235,12 @@ def check_reexecution(acc, case, other, plan):
             job.load_string(text)
             previous_stopped = False
             continue
+        if step[0] == 'stop-when-idle':
+            # a stop request that arrives when no run is in progress is aimed
+            # at nothing: the next run is a complete one
+            job.request_stop()
+            labels.append('stop-request-between-runs')
+            continue
         stop_after = step[1] if step[0] == 'stop' else None
         trace, stopped, res = execute(world, job, population, stop_after)
         if stopped:
@@ -333,6 +354,7 @@ def plan(tier, seed_value):
 PLAN_STEP = st.one_of(
     st.just(['run']), st.just(['run']),
     st.tuples(st.just('stop'), st.integers(1, 6)).map(list),
+    st.just(['stop-when-idle']),
     st.just(['reload']))
 
 
